@@ -544,3 +544,127 @@ T('bat-create-task-spawn', ['C04', 'C09', 'C10'],
                 self._process_batch(tasks),
                 name="async-bg-batcher-process-batch",
             )""", """            self._loop.create_task(self._process_batch(tasks))"""))
+
+
+# ---------------------------------------------------------------------------
+# BufferAsyncCalls
+# ---------------------------------------------------------------------------
+B('buf-set-in-finally', ['C03'], ['C03-S1'],
+  (A, "            logging.exception(\"Failed to run %s, retrying\", self.func)\n        else:\n            self.event.set()",
+   "            logging.exception(\"Failed to run %s, retrying\", self.func)\n        finally:\n            self.event.set()"))
+B('buf-inputs-cleared-after-run', ['C03'], ['C03-S2'],
+  (A, "                await self._run_func(inputs)\n            else:", "                await self._run_func(inputs)\n                inputs.clear()\n            else:"))
+B('buf-runner-reraises', ['C03'], ['C03-S3'],
+  (A, "            logging.exception(\"Failed to run %s, retrying\", self.func)\n        else:", "            logging.exception(\"Failed to run %s, retrying\", self.func)\n            raise\n        else:"))
+B('buf-no-retry-after-run', ['C03'], ['C03-S3'],
+  (A, "                await self._run_func(inputs)\n            else:", "                await self._run_func(inputs)\n                return\n            else:"))
+B('buf-drained-not-loaded', ['C03', 'C08'], ['C03-S4', 'C08-D4'],
+  (A, "            input_gens.extend(map(_load_inputs, self._empty_queue()))", "            for _ in self._empty_queue():\n                pass"))
+B('buf-clear-before-gather', ['C03'], ['C03-S4'],
+  (A, """            if input_gens:  # Load as many as possible concurrently
+                await aio.gather(*input_gens)
+                input_gens.clear()  # Clear processed input generators""", """            input_gens.clear()  # Clear processed input generators
+            if input_gens:  # Load as many as possible concurrently
+                await aio.gather(*input_gens)"""))
+B('buf-loader-no-handler', ['C03'], ['C03-S5'],
+  (A, """            try:
+                async for i in iterable:
+                    inputs.add(i)
+            except BaseException:  # noqa
+                logger.exception("Failed to get args from: %r", iterable)""", """            async for i in iterable:
+                inputs.add(i)"""))
+B('buf-add-after-loop', ['C03'], ['C03-S5'],
+  (A, """                async for i in iterable:
+                    inputs.add(i)
+            except BaseException:  # noqa""", """                loaded = []
+                async for i in iterable:
+                    loaded.append(i)
+                for j in loaded:
+                    inputs.add(j)
+            except BaseException:  # noqa"""))
+B('buf-adds-str', ['C03'], ['C03-S6'],
+  (A, "                    inputs.add(i)\n", "                    inputs.add(str(i))\n"))
+B('buf-func-gets-copy-minus', ['C03'], ['C03-S6'],
+  (A, "                await self.func(inputs)", "                await self.func(set(list(inputs)[:1]))"))
+B('buf-map-never-puts', ['C03'], ['C03-S7'],
+  (A, "        self._put(to_async_iter(_args))", "        to_async_iter(_args)"))
+B('buf-await-wrong-adaptor', ['C03'], ['C03-S7'],
+  (A, "        self._put(_awaitable_to_aiter(_arg))", "        self._put(_obj_to_aiter(_arg))"))
+B('buf-put-nowait-direct', ['C03'], ['C03-S8'],
+  (A, "        self.loop.call_soon_threadsafe(self.q.put_nowait, iterable)", "        self.q.put_nowait(iterable)"))
+B('buf-call-soon-not-threadsafe', ['C03', 'C07'], ['C03-S8', 'C07-W8'],
+  (A, "        self.loop.call_soon_threadsafe(self.q.put_nowait, iterable)", "        self.loop.call_soon(self.q.put_nowait, iterable)"))
+B('buf-second-foreign-flag-mutation', ['C03'], ['C03-S9'],
+  (A, "        self._put(_obj_to_aiter(_arg))", "        self.event.clear()\n        self._put(_obj_to_aiter(_arg))"))
+B('buf-suspend-after-set', ['C03'], ['C03-S10'],
+  (A, "        else:\n            self.event.set()\n\n    def _schedule_with_timeout", "        else:\n            self.event.set()\n            await aio.sleep(0)\n\n    def _schedule_with_timeout"))
+B('buf-adaptor-conditional-yield', ['C03'], ['C03-S7'],
+  (A, "    yield o\n\n\nasync def _awaitable_to_aiter", "    if o:\n        yield o\n\n\nasync def _awaitable_to_aiter"))
+B('buf-wait-no-join', ['C07'], ['C07-W1'],
+  (A, "        await self.loop.create_task(self.q.join())\n", "        await aio.sleep(0)\n"))
+B('buf-wait-flag-before-join', ['C07'], ['C07-W1'],
+  (A, "        await self.loop.create_task(self.q.join())\n", "        await self.event.wait()\n        await self.loop.create_task(self.q.join())\n"))
+B('buf-no-clear-after-first-get', ['C07'], ['C07-W2'],
+  (A, "            self.event.clear()  # Ensure cleared in case previous cancel\n", ""))
+B('buf-suspend-between-get-and-done', ['C07'], ['C07-W2'],
+  (A, "            self.event.clear()  # Ensure cleared in case previous cancel\n            self.q.task_done()", "            self.q.task_done()\n            await aio.sleep(0)\n            self.event.clear()  # Ensure cleared in case previous cancel"))
+B('buf-first-get-no-task-done', ['C07'], ['C07-W3'],
+  (A, "            self.event.clear()  # Ensure cleared in case previous cancel\n            self.q.task_done()", "            self.event.clear()  # Ensure cleared in case previous cancel"))
+B('buf-drain-no-task-done', ['C07'], ['C07-W3'],
+  (A, "            except aio.QueueEmpty:\n                break\n            else:\n                self.q.task_done()", "            except aio.QueueEmpty:\n                break"))
+B('buf-extra-task-done', ['C07'], ['C07-W3'],
+  (A, "                await self._run_func(inputs)\n            else:\n                self.q.task_done()", "                await self._run_func(inputs)\n                self.q.task_done()\n            else:\n                self.q.task_done()"))
+B('buf-wait-cancels-daemon', ['C07'], ['C07-W4'],
+  (A, "            self._getting.cancel()\n        # Wait for the function", "            self._waiting.cancel()\n        # Wait for the function"))
+B('buf-wait-cancels-always', ['C07'], ['C07-W4'],
+  (A, "        if cancel and self._getting and not self._getting.done():", "        if self._getting and not self._getting.done():"))
+B('buf-no-flush-on-cancel', ['C07'], ['C07-W5'],
+  (A, "            except (aio.TimeoutError, aio.CancelledError):\n                await self._run_func(inputs)", "            except aio.TimeoutError:\n                await self._run_func(inputs)"))
+B('buf-wait-clears-flag', ['C07'], ['C07-W6'],
+  (A, "        # Wait for the function to finish processing\n        await self.event.wait()", "        # Wait for the function to finish processing\n        await self.event.wait()\n        self.event.clear()"))
+B('buf-anywhere-drops-cancel', ['C07'], ['C07-W7'],
+  (A, "        return await ensure_aw(self.wait(cancel=cancel), self.loop)", "        return await ensure_aw(self.wait(), self.loop)"))
+B('buf-anywhere-wrong-loop', ['C07'], ['C07-W7'],
+  (A, "        return await ensure_aw(self.wait(cancel=cancel), self.loop)", "        return await ensure_aw(self.wait(cancel=cancel), aio.get_running_loop())"))
+B('buf-fourth-cancel-swallower', ['C07'], ['C07-W9'],
+  (A, "        while True:\n            await self._process_queue()", "        while True:\n            try:\n                await self._process_queue()\n            except BaseException:\n                pass"))
+B('buf-daemon-overrides-cancel', ['C07'], ['C07-W10'],
+  (A, "    __del__ = aio.Task.__base__.__del__  # type: ignore", "    __del__ = aio.Task.__base__.__del__  # type: ignore\n\n    def cancel(self, msg=None):\n        return False"))
+B('buf-func-as-task', ['C08'], ['C08-D1'],
+  (A, "                await self.func(inputs)", "                await self.loop.create_task(self.func(inputs))"))
+B('buf-func-fire-and-forget', ['C08', 'C03'], ['C08-D1', 'C03-S1'],
+  (A, "                await self.func(inputs)", "                aio.ensure_future(self.func(inputs))"))
+B('buf-no-empty-guard', ['C08'], ['C08-D2'],
+  (A, "            if inputs:  # Could be empty if all empty iterators\n                await self.func(inputs)", "            await self.func(inputs)"))
+B('buf-run-after-every-arrival', ['C08'], ['C08-D3', 'C08-D4'],
+  (A, "                await self._run_func(inputs)\n            else:\n                self.q.task_done()", "                await self._run_func(inputs)\n            else:\n                self.q.task_done()\n                await self._run_func(inputs)"))
+B('buf-timer-constant', ['C08', 'C15'], ['C08-D3', 'C15-R2'],
+  (A, "        return self.loop.create_task(aio.wait_for(coro, self.timeout))", "        return self.loop.create_task(aio.wait_for(coro, 1))"))
+B('buf-arm-before-drain', ['C08'], ['C08-D4'],
+  (A, """            input_gens.extend(map(_load_inputs, self._empty_queue()))
+            # Schedule the q.get() and save it as an attribute so it
+            # can be cancelled as necessary. This needs to be scheduled
+            # *before* waiting for the known inputs.
+            self._getting = self._schedule_with_timeout(self.q.get())""", """            self._getting = self._schedule_with_timeout(self.q.get())
+            input_gens.extend(map(_load_inputs, self._empty_queue()))"""))
+B('buf-second-daemon', ['C08'], ['C08-D1'],
+  (A, "        #: Current task that is waiting for a new element from the queue", "        self._waiting2 = DaemonTask(self._waiter(), loop=self.loop)\n        #: Current task that is waiting for a new element from the queue"))
+B('buf-timer-armed-once', ['C08'], ['C08-D3'],
+  (A, """            self._getting = self._schedule_with_timeout(self.q.get())
+            if input_gens:""", """            if self._getting is None or self._getting.done():
+                self._getting = self._schedule_with_timeout(self.q.get())
+            if input_gens:"""))
+
+T('buf-rename-roles', ['C03', 'C07', 'C08'],
+  (A, "_getting", "_timer", 'all'), (A, "inputs", "pending", 'all'), (A, "input_gens", "loaders", 'all'))
+T('buf-inline-arm', ['C03', 'C07', 'C08', 'C15'],
+  (A, "            self._getting = self._schedule_with_timeout(self.q.get())", "            self._getting = self.loop.create_task(aio.wait_for(self.q.get(), self.timeout))"))
+T('buf-join-direct', ['C07'],
+  (A, "        await self.loop.create_task(self.q.join())\n", "        await self.q.join()\n"))
+T('buf-runner-return-form', ['C03', 'C07', 'C08'],
+  (A, "            logging.exception(\"Failed to run %s, retrying\", self.func)\n        else:\n            self.event.set()",
+   "            logging.exception(\"Failed to run %s, retrying\", self.func)\n            return\n        self.event.set()"))
+T('buf-loader-except-exception', ['C03', 'C07'],
+  (A, "            except BaseException:  # noqa\n                logger.exception(\"Failed to get args from: %r\", iterable)", "            except Exception:  # noqa\n                logger.exception(\"Failed to get args from: %r\", iterable)"))
+T('buf-done-before-clear', ['C07', 'C03'],
+  (A, "            self.event.clear()  # Ensure cleared in case previous cancel\n            self.q.task_done()", "            self.q.task_done()\n            self.event.clear()  # Ensure cleared in case previous cancel"))
